@@ -562,7 +562,17 @@ def r6(ctx):
                                 break
                         p_ = m.parent.get(p_)
                     if binder is None:
-                        continue          # not a block loop (e.g. the caller passes its own coordinates through)
+                        # not a block loop.  The caller may pass its own coordinates through - but the read / molecule annotation may not query the *span* of a
+                        # fragment or molecule in place of its aligned blocks: the span runs from the R1 5' end to the far mate, aligned bases of dove-tailed
+                        # or same-orientation mates lie outside it
+                        spanish = sorted(n_ for e_ in (startarg, endarg) for n_ in {src(x) for x in ast.walk(e_) if isinstance(x, (ast.Attribute, ast.Call))}
+                                         if n_ in ('self.spanStart', 'self.spanEnd', 'self.get_span()', 'self.span'))
+                        if spanish and f.name in ('annotate', '_iter_block_hits', 'annotate_features'):
+                            n += 1
+                            ctx.emit('C16-R6', False, rel, c, f'{q}: `{src(c)[:100]}` queries the span {spanish} instead of the aligned blocks: features that overlap aligned bases outside the span '
+                                     f'(dove-tailed pairs, same-orientation mates) are never candidates and are missing from the annotation', key=f'{q}:annotation-queries-blocks',
+                                     what=f'{q}: the annotation queries the molecule span, not the aligned blocks')
+                        continue
                     bsrc = src(binder)
                     if isinstance(binder, ast.Name):
                         # the block list is a local: every definition of it has to be a block source
